@@ -466,6 +466,31 @@ func costFamilies() []costFamily {
 			tail = c09Tlv6(9, c09MsgHdr6)
 		}
 		fs = append(fs, c09Fam("chain-"+c.name, "v6", func(n int) []byte { return c09NestChain(n, c09MsgHdr6, c.levels, tail, 0) }))
+		// the same chain, consistent at every level, with a malformed innermost value (three
+		// stray octets: a cut option header): the decode FAILS, and failing must cost no
+		// more than succeeding - a decoder that tries again on an error (another layout,
+		// another offset) at every level multiplies its work by the depth or worse
+		// (seeded change C09-14: a second parse attempt 8 octets further on in IA_TA)
+		fs = append(fs, c09Fam("chain-"+c.name+"-badleaf", "v6", func(n int) []byte {
+			return c09NestChain(n, c09MsgHdr6, c.levels, []byte{0, 1, 0}, 0)
+		}))
+		for _, depth := range []int{12, 20, 28, 36} {
+			depth := depth
+			fs = append(fs, c09Fam(fmt.Sprintf("chain%d-%s-ones-badleaf", depth, c.name), "v6", func(n int) []byte {
+				lv := make([]c09NestLevel, len(c.levels))
+				for i, l := range c.levels {
+					f := append([]byte{}, l.fixed...)
+					for j := range f {
+						f[j] = 0xff
+					}
+					if l.code == 26 && len(f) > 8 {
+						f[8] = 64 // a prefix length the decoder accepts
+					}
+					lv[i] = c09NestLevel{l.code, f}
+				}
+				return c09NestChain(n, c09MsgHdr6, lv, []byte{0, 1, 0}, depth)
+			}))
+		}
 		// every level nearly as long as the input: a 64-deep chain around one big leaf
 		fs = append(fs, c09Fam("chain64-"+c.name+"+leaf", "v6", func(n int) []byte {
 			need := len(c09MsgHdr6) + len(tail) + 4
